@@ -14,7 +14,8 @@ CONSTANTS
     AdoptNewFs = TRUE
     RestoreOnInit = TRUE
     UnknownUnmountOK_G = TRUE
+    OverwriteRecord = TRUE
 SPECIFICATION MonSpec
-INVARIANTS RecordEqualsServing NoSecondMount MapMatchesLive NoPanic
+INVARIANTS RecordedLabelsServed RecordEqualsServing NoSecondMount MapMatchesLive NoPanic
 PROPERTIES NoRemountCall ServedByCreator NewMountsUseNewConfig RestartRemountsRecordedWithLabels UnknownUnmountOK BeforeInitFails NoFsMountFails
 CHECK_DEADLOCK FALSE
